@@ -293,14 +293,7 @@ func rulePassOrder(c *core.Ctx) {
 					continue
 				}
 				d := c.Decl(f)
-				guarded := false
-				if d != nil && len(d.Body.List) > 0 {
-					if is, ok := d.Body.List[0].(*ast.IfStmt); ok && strings.Contains(types.ExprString(is.Cond), "len(") && strings.Contains(types.ExprString(is.Cond), ".Errors)") && len(is.Body.List) == 1 {
-						if _, isRet := is.Body.List[0].(*ast.ReturnStmt); isRet {
-							guarded = true
-						}
-					}
-				}
+				guarded := d != nil && startsWithErrorGuard(c, d)
 				key := "acyclic/" + f.Name()
 				switch {
 				case index[f.Name()] < ti:
@@ -331,4 +324,65 @@ func rulePassOrder(c *core.Ctx) {
 	}
 	c.Tables["pass_field_access"] = tbl
 	_ = strings.Join
+}
+
+// startsWithErrorGuard: before the pass does anything else (statements that call nothing in the module may come
+// first), it returns when the error sink already holds errors: `if len(sink.Errors) > 0 { return env }`, the test
+// possibly kept in a local first, written `!= 0`, `>= 1` or the other way round.
+func startsWithErrorGuard(c *core.Ctx, d *ast.FuncDecl) bool {
+	info := c.DeclPkg(d).TypesInfo
+	hasErrors := func(e ast.Expr) bool {
+		if id, ok := ast.Unparen(e).(*ast.Ident); ok {
+			e = singleDefRHS(info, d.Body, id)
+		}
+		be, ok := ast.Unparen(e).(*ast.BinaryExpr)
+		if !ok {
+			return false
+		}
+		l, r, op := be.X, be.Y, be.Op
+		if _, isLen := lenArg(info, r); isLen {
+			l, r, op = r, l, flipOp(op)
+		}
+		a, isLen := lenArg(info, l)
+		if !isLen {
+			return false
+		}
+		se, ok := ast.Unparen(a).(*ast.SelectorExpr)
+		if !ok || se.Sel.Name != "Errors" {
+			return false
+		}
+		v, ok := constInt(info, r)
+		if !ok {
+			return false
+		}
+		return (op == token.GTR && v == 0) || (op == token.NEQ && v == 0) || (op == token.GEQ && v == 1)
+	}
+	callsModule := func(n ast.Node) bool {
+		found := false
+		ast.Inspect(n, func(x ast.Node) bool {
+			if ce, ok := x.(*ast.CallExpr); ok {
+				if f := core.Callee(info, ce); f != nil && core.InModule(f) {
+					found = true
+				}
+			}
+			return !found
+		})
+		return found
+	}
+	for _, st := range d.Body.List {
+		if is, ok := st.(*ast.IfStmt); ok && is.Init == nil && is.Else == nil && hasErrors(is.Cond) && len(is.Body.List) > 0 {
+			if _, isRet := is.Body.List[len(is.Body.List)-1].(*ast.ReturnStmt); isRet && !callsModule(is.Body) {
+				return true
+			}
+		}
+		if callsModule(st) {
+			return false
+		}
+		switch st.(type) {
+		case *ast.AssignStmt, *ast.DeclStmt:
+		default:
+			return false
+		}
+	}
+	return false
 }
